@@ -429,6 +429,9 @@ class Interp:
     def builtin(self, name):
         from .builtins_model import BUILTINS
 
+        ov = self.cx.externals.get("builtins." + name)
+        if ov is not None:  # a contract may replace a builtin constructor by a model (e.g. dict -> a store sequence)
+            return Builtin(name, ov)
         if name in BUILTINS:
             return Builtin(name, BUILTINS[name])
         raise Unsupported(f"name {name!r} is not defined in the model")
@@ -1222,6 +1225,8 @@ class Interp:
         if isinstance(obj, set):
             if name in ("union", "add"):
                 return Builtin("set." + name, _set_method(obj, name))
+        if isinstance(obj, slice) and name in ("start", "stop", "step"):
+            return getattr(obj, name)
         if isinstance(obj, str):
             return Builtin("str." + name, _str_method(obj, name))
         if isinstance(obj, PyRaise):
@@ -1245,9 +1250,13 @@ class Interp:
             if V.is_z3(idx):
                 i = z3.simplify(idx)
                 if z3.is_int_value(i):
-                    return cont[i.as_long()]
-                raise Unsupported("symbolic index into a concrete list")
-            return cont[idx]
+                    idx = i.as_long()
+                else:
+                    raise Unsupported("symbolic index into a concrete list")
+            try:
+                return cont[idx]
+            except IndexError:
+                raise PyRaise("IndexError", ("list index out of range",)) from None
         if isinstance(cont, str):
             return cont[idx]
         if isinstance(cont, Obj):
